@@ -473,7 +473,7 @@ def main(chk):
         jobs.append({"id": "nonutf8-%d" % i, "kind": "nonutf8", "seed": job_seed(chk.seed, "C01", "N%d" % i)})
     for i in range(24 if quick else 200):
         jobs.append({"id": "rxroots-%d" % i, "kind": "rxroots", "seed": job_seed(chk.seed, "C01", "R%d" % i), "queries": 12})
-    shapes = enum_shapes(4 if quick else 6)
+    shapes = enum_shapes(5 if quick else 8)
     per = 4
     for i in range(0, len(shapes), per):
         jobs.append({"id": "shape%d" % i, "kind": "exhaustive", "seed": 0,
@@ -483,7 +483,7 @@ def main(chk):
         rule="random trees (1-3 disjoint roots, every creatable entry kind) x root spellings x windows "
              "0..depth+2 x {default,bfs,dfs}; plus every directory-tree shape with <= %d directories x windows "
              "0..4 x {bfs,dfs}; 30 %% of the random queries also search a link-free root carrying `symlinks` (the option must stay with that root); `regexp` / `rx` roots: 15 patterns over one or two path components, relative and absolute, expanded by the harness with re.fullmatch over real directories. Non-trivial = query returned >= 1 row; distinct by (tree shape hash, window/mode/spelling)."
-             % (4 if quick else 6),
+             % (5 if quick else 8),
         assumptions=["deciding binary built without LTO (otherwise the release profile)",
                      "ground truth = os.lstat walk of the tree after it was built",
                      "rows are mapped to entries by normalising the printed path against the cwd; path spelling is not judged"],
